@@ -42,7 +42,7 @@ def _transition(kernel, interface, key, state):
     return out.model_state
 
 
-def tau2_events(rng, d=4, order=2, stale_change=True, nkeys=4):
+def tau2_events(rng, d=4, order=2, stale_change=True, nkeys=4, int_current=False):
     a0, b0 = rng.choice([(1.0, 0.5), (2.0, 0.005), (0.5, 1.5)])
     model, K = build_distreg(d, order, a0, b0)
     group = model.groups()["loc_np0"]
@@ -62,6 +62,8 @@ def tau2_events(rng, d=4, order=2, stale_change=True, nkeys=4):
             if step == 2:
                 Kcur = (K * np.float32(2.0)).astype(np.float32)
                 model.vars["loc_np0_K"].value = jnp.asarray(Kcur)
+        if int_current:
+            model.vars["loc_np0_tau2"].value = 2        # an integer-typed current value
         model.update()
         state = model.state
         rank = float(np.linalg.matrix_rank(np.asarray(Kcur, np.float64)))
@@ -126,6 +128,21 @@ def discrete_models(kind):
         y1 = lsl.obs(jnp.asarray([0.1, 0.3], jnp.float32), lsl.Dist(tfd.Normal, loc=m1, scale=1.0), name="y1")
         y2 = lsl.obs(jnp.asarray([2.0], jnp.float32), lsl.Dist(tfd.Poisson, rate=lsl.Calc(lambda m: 1.0 + 2.0 * m, m1)), name="y2")
         return lsl.GraphBuilder().add(y1, y2).build_model(), [0, 1], [0, 1]
+    if kind == "bernoulli_tempered":
+        # the model's joint density is a user-supplied (tempered) log-prob node
+        z = lsl.Var(jnp.asarray(1), lsl.Dist(tfd.Bernoulli, probs=lsl.Value(0.3)), name="z")
+        y = lsl.obs(jnp.asarray([0.4, 1.2, 0.9], jnp.float32),
+                    lsl.Dist(tfd.Normal, loc=lsl.Calc(lambda z: 0.2 + 1.0 * z, z), scale=0.8), name="y")
+        gb = lsl.GraphBuilder().add(y)
+        gb.log_prob_node = lsl.Calc(lambda ll, lp: 0.25 * jnp.sum(ll) + jnp.sum(lp), y.dist_node, z.dist_node, _name="tempered")
+        return gb.build_model(), [0, 1], [0, 1]
+    if kind == "finite_int_current":
+        # the current value is integer-typed, the outcomes are not integers
+        grid = lsl.Var(jnp.asarray([0.5, 1.0, 1.5]), name="value_grid")
+        z = lsl.Var(jnp.asarray(1), lsl.Dist(tfd.FiniteDiscrete, outcomes=grid, probs=jnp.asarray([0.2, 0.3, 0.5])), name="z")
+        y = lsl.obs(jnp.asarray([0.7, 0.2, 0.6], jnp.float32), lsl.Dist(tfd.Normal, loc=lsl.Calc(lambda z: 1.0 * z, z), scale=0.7),
+                    name="y")
+        return lsl.GraphBuilder().add(y).build_model(), None, [0.5, 1.0, 1.5]
     raise KeyError(kind)
 
 
@@ -135,7 +152,7 @@ def discrete_events(rng, kind, nkeys=64):
         else lsl.goose.finite_discrete_gibbs_kernel("z", model, outcomes=outcomes_arg)
     interface = gs.LieselInterface(model)
     state = model.state
-    dtype = np.asarray(model.vars["z"].value).dtype
+    dtype = np.float32 if kind == "finite_int_current" else np.asarray(model.vars["z"].value).dtype
     logits = [float(interface.log_prob(interface.update_state({"z": jnp.asarray(o, dtype)}, state))) for o in outcomes]
     keys = [jax.random.PRNGKey(rng.randrange(1 << 30)) for _ in range(nkeys)]
     draws = [float(interface.extract_position(["z"], _transition(kernel, interface, k, state))["z"]) for k in keys]
